@@ -30,6 +30,8 @@ pub struct FlowCase {
     pub start_wall_ns: Option<i128>,
     /// 0 = no embedder task; n = started with chance 1/n per scheduling step (see Driver::embedder_rate).
     pub embedder_rate: u64,
+    /// Downtime before a restart (run_case_restart): both clocks advance by this much.
+    pub restart_gap_ns: i128,
 }
 
 impl FlowCase {
@@ -49,6 +51,7 @@ impl FlowCase {
             max_steps: 5_000,
             start_wall_ns: None,
             embedder_rate: 0,
+            restart_gap_ns: 0,
         }
     }
     pub fn shape_key(&self) -> u64 {
@@ -174,6 +177,13 @@ pub fn gen_apps(rng: &mut Rng, n: usize) -> Vec<AppSpec> {
         })
         .collect::<Vec<_>>();
     let mut apps = apps;
+    // products released in lock-step share their installed version
+    if apps.len() >= 2 && rng.chance(1, 6) {
+        let v = apps[0].version;
+        for a in apps.iter_mut() {
+            a.version = v;
+        }
+    }
     // now and then two apps whose ids differ only in letter case (distinct products for the library)
     if apps.len() >= 2 && rng.chance(1, 8) {
         apps[1].id = apps[0].id.to_uppercase();
@@ -185,9 +195,17 @@ pub fn gen_apps(rng: &mut Rng, n: usize) -> Vec<AppSpec> {
 }
 
 pub fn gen_cohort_field(rng: &mut Rng) -> Option<String> {
-    match rng.below(4) {
-        0 | 1 => None,
-        2 => Some(String::new()),
+    match rng.below(16) {
+        0..=7 => None,
+        8..=11 => Some(String::new()),
+        // values the server is free to hand out: longer than 1024 bytes, non-ASCII, control characters
+        12 => Some(match rng.below(5) {
+            0 => format!("srv-{}", "x".repeat(1021 + rng.usize(8))),
+            1 => "b\u{ea}ta".to_string(),
+            2 => "tab\there".to_string(),
+            3 => "\u{4e2d}\u{6587}-channel".to_string(),
+            _ => format!("{}\u{e9}", "y".repeat(1023)),
+        }),
         _ => Some(format!("srv{}", rng.below(50))),
     }
 }
@@ -262,6 +280,16 @@ pub fn gen_doc(rng: &mut Rng, apps: &[AppSpec], want_offer: Option<bool>, cohort
         }
         out.push((id.clone(), k));
     }
+    if want_offer != Some(false) && rng.chance(1, 15) {
+        // the only offer is for an app the client does not have
+        for x in out.iter_mut() {
+            if matches!(x.1, AppKind::Offer | AppKind::OfferNoVersion) {
+                x.1 = AppKind::NoUpdate;
+            }
+        }
+        let pos = rng.usize(out.len() + 1);
+        out.insert(pos, (format!("{{unknown-{}}}", 3 + rng.below(3)), AppKind::Offer));
+    }
     if want_offer == Some(true) && !out.iter().any(|x| matches!(x.1, AppKind::Offer | AppKind::OfferNoVersion)) {
         let i = rng.usize(out.len());
         out[i].1 = if rng.chance(1, 4) { AppKind::OfferNoVersion } else { AppKind::Offer };
@@ -294,6 +322,20 @@ pub fn gen_doc(rng: &mut Rng, apps: &[AppSpec], want_offer: Option<bool>, cohort
         })
         .collect();
     let wrap = if rng.chance(1, 6) { 1 + rng.below(3) as u8 } else { 0 };
+    let mut apps_out = apps_out;
+    // apps released in lock-step: every offer carries the same version
+    if rng.chance(1, 8) {
+        let v = apps_out.iter().find_map(|a| a.updatecheck.as_ref().and_then(|u| u.manifest_version.clone()));
+        if let Some(v) = v {
+            for a in apps_out.iter_mut() {
+                if let Some(u) = a.updatecheck.as_mut() {
+                    if u.manifest_version.is_some() {
+                        u.manifest_version = Some(v.clone());
+                    }
+                }
+            }
+        }
+    }
     (DocSpec { daystart: gen_daystart(rng), apps: apps_out, wrap }, label)
 }
 
@@ -509,7 +551,28 @@ pub fn gen_check(rng: &mut Rng, apps: &[AppSpec], path: Path, cup: bool, cohorts
                 EtagSpec::Auto
             };
             label.push_str(etag.label());
-            attempts.push(RespSpec::Reply(ReplySpec::ok(BodySpec::Doc(doc)).with_etag(etag)));
+            let mut rep = ReplySpec::ok(BodySpec::Doc(doc)).with_etag(etag);
+            if cup {
+                match rng.below(8) {
+                    0 => {
+                        // an unauthenticated error page that tries to dictate a poll interval
+                        rep.status = *rng.pick(&[500u16, 503, 429, 404, 302]);
+                        rep.headers.push(("X-Retry-After".into(), b"7200".to_vec()));
+                        label.push_str("+status+ra");
+                    }
+                    1 => {
+                        rep.status = *rng.pick(&[500u16, 503, 400]);
+                        label.push_str("+status");
+                    }
+                    2 => {
+                        rep.body = BodySpec::Raw(vec![]);
+                        rep.headers.push(("X-Retry-After".into(), b"600".to_vec()));
+                        label.push_str("+empty+ra");
+                    }
+                    _ => {}
+                }
+            }
+            attempts.push(RespSpec::Reply(rep));
         }
         Path::ParseError => {
             for _ in 0..pre {
@@ -656,6 +719,13 @@ pub fn run_case_restart(case: &FlowCase, next_setups: &[Setup], rng: &mut Rng, e
         }
         drop(d);
         setups.push(ns.clone());
+        if case.restart_gap_ns > 0 {
+            let mut g = lock(&w);
+            g.wall_ns += case.restart_gap_ns;
+            g.mono_ns += case.restart_gap_ns;
+            let (wall, mono) = (g.wall_ns, g.mono_ns);
+            g.push(Ev::Clock { wall, mono });
+        }
         d = Driver::restart(&w, ns);
         d.max_steps = case.max_steps;
         let base_next = lock(&w).n_next;
@@ -780,6 +850,11 @@ pub fn decorate_retry_after_opt(script: &mut Script, rng: &mut Rng, num: u64, de
                 }
             } else {
                 label.push_str("-,");
+                // the standard header is not Omaha's: a number in it (also on 429 / 503) dictates nothing
+                if rng.chance(1, 8) {
+                    rep.headers.push(("Retry-After".into(), rng.pick(&[&b"120"[..], b"3600", b"0"]).to_vec()));
+                    label.push_str("std,");
+                }
             }
         }
     };
